@@ -23,6 +23,7 @@ static void digest_case(Ctx& c, uint64_t index) {
   int done = 0;
   for (; done < steps; done++) {
     Op o = gen_op(r, ho, m);
+    adapt_op(o);
     log.push_back(op_str(o));
     Outcome exp = model_apply(m, o);
     bool bad = false;
